@@ -89,6 +89,26 @@ def check(prop, tier, res, replay=None):
                                "how": "hkharness lockstep -replay <trace lines>"}, found=True)
             if len(samples) < 2:
                 samples.append({"profile": r["profile"], "trace": lock_trace(r["dir"], 0, 4)})
+        # the same operator calls through the front ends, which take a different road per backend (MCP: a SQLite file directly,
+        # any other backend through the Admin API): judged by the common contract predicate (driver mode opfront)
+        if not replay:
+            import others, pure
+            pl = others.OPFRONT
+            xjobs = list(range(pl["shards"](tier)))
+            for sh, rr in zip(xjobs, pmap(lambda sh: pure.run_cases(pl["sub"], pl["args"](tier, sd, sh), pl["mode"], work, f"opfront-{sh}"), xjobs)):
+                if "error" in rr:
+                    res.violation("pipeline:opfront", "correspondence pipeline failed: " + rr["error"][:600], {"kind": "pipeline", "theorem_or_tie": "opfront", "log": rr["error"]}, found=False)
+                    continue
+                steps += rr["n"]
+                seen = 0
+                for cse, v in rr["bad"]:
+                    names = v.split(" ")[1].split(",") if v.startswith("PROP ") else []
+                    if prop in names and seen < 2:
+                        seen += 1
+                        clause = v.split(" ")[2] if len(v.split(" ")) > 2 else "?"
+                        res.violation(f"opfront:{clause}:{pure.case_key(cse, pl['key_fields'])}", f"{prop} violated by the implementation on a concrete input (opfront/{clause}): {v[:300]}",
+                                      {"kind": "case", "family": "opfront", "case": json.loads(cse), "verdict": v,
+                                       "rerun": {"harness": [pl["sub"]] + [str(a) for a in pl["args"](tier, sd, sh)], "driver_mode": pl["mode"]}}, found=True)
         cov.update({"evaluations": steps, "distinct_nontrivial": len([k for k in kinds if not k.endswith(":0") and "none" not in k]),
                     "rule": "one evaluation = one Store call executed on memory AND SQLite (same clock, same arguments, symbolic lease references) and on each backend's model instance; pairs_compared_equal counts steps whose responses and full snapshots were identical modulo generated lease ids; a trace stops being compared directly once the backends made a different free choice (dequeue pick / eviction tie)",
                     "pairs_compared_equal": equal, "pairs_not_compared_choice_differs": abandoned, "traces_validated_against_impl": len(jobs) * traces * 2,
